@@ -257,3 +257,23 @@ PROPS["C11"] = {
     "quick": [R("TestPropAggregateBypass", 2500)],
     "thorough": [R("TestPropAggregateBypass", 20000, shards=16, timeout=2400)],
 }
+
+PROPS["C02"] = {
+    "pkg": "c02", "level": "exploration",
+    "rule": ("rapid draws byte strings shaped like lines: 0-5 fields separated by space / tab / VT / CR / double spaces, names from a grammar (legacy names, "
+             "leading dot, consecutive dots, illegal characters, NUL and 8-bit bytes, ';tag=value' appendices valid and invalid in each way, "
+             "metrics2.0 '=' and '_is_' names with / without unit and mtype, mixed styles, version-detection edge cases), values and timestamps "
+             "from numeric spellings and near-misses, plus ~10% random bytes; the validation levels are drawn as CONFIGURATION TEXT (toml decoded "
+             "into cfg.NewConfig(), either key present or omitted) for all 3x2 combinations. Oracle: independent reference validator written from "
+             "docs/validation.md (self-checked on every line against carbon20.ValidatePacket; a disagreement is a harness error): forwarded to the "
+             "capture route and the catch-all aggregation iff valid, in-counter delta = lines, invalid-counter delta = rejected, every rejected "
+             "3-field line visible in Table.Bad() under its name with the LAST rejected text and a reason. level_names: the name->level mapping "
+             "and rejection of unknown level names. Non-trivial: a 3-field line whose verdict differs between level combinations, or an invalid "
+             "line with a valid name. Distinct = hash(levels, lines)."),
+    "level_text": "Reference-validator property testing through the real table configured from configuration text; tens of thousands of generated lines x all six level combinations; holds on all generated.",
+    "level_note": "The per-character rules live in the third-party carbon20 library: the reference is cross-checked against it so a rule disagreement is never reported as a violation; what is under test is the relay's use of it (levels from config, forwarding, counting, reporting).",
+    "technique": "property-based testing (rapid): reference validator oracle, counters and bad-metrics report invariants; native go fuzz target in the thorough tier",
+    "assumptions": ["carbon20.ValidatePacket defines name validity per level", "bad-metrics records are handed over asynchronously (polled up to 10 s)"],
+    "quick": [R("TestPropValidity", 3000), R("TestPropLevelNames", 300)],
+    "thorough": [R("TestPropValidity", 40000, shards=14, timeout=2400), R("TestPropLevelNames", 2000), F("FuzzDispatchValidity", "150s")],
+}
